@@ -11,19 +11,34 @@ RULE = ('random programs whose bodies nest ;, ->, -> without else and \\+ to dep
         'cuts in branches, followed by continuation goals; a third of the programs also put cuts inside conditions and under \\+ (local to the '
         'condition; the former finding KF-C06-1, repaired by /repo commit 64ae898). Compared as C01. Non-trivial: the program contains ;, -> or \\+ and some '
         'query has an answer. In addition ALL bodies with at most 2 (quick tier) / 3 (thorough tier) leaves over the leaf goals {no / one / two solutions, true, fail, !, =} '
-        'and the constructs are enumerated exhaustively (origin "exhaustive"), each followed by a continuation goal and a second clause.')
+        'and the constructs are enumerated exhaustively (origin "exhaustive"), each followed by a continuation goal and a second clause. '
+        'Round 3: generator mode "continuation duplication" (in half of the random programs 30-60% of the clause bodies have the shape D, K [, G] / '
+        '(D, K), G / G, D, K / (G, D), K where D is (A ; B), a 3-way or left-parenthesised disjunction, (C -> T ; E), (C -> T), an else-if chain '
+        '(C1 -> T1 ; C2 -> T2 ; E), ((C -> T ; E) ; F), with all alternatives reachable, and K - the goal compile_body compiles once per alternative - is '
+        '\\+ Cond, (Cond -> T ; E), (Cond -> T), \\+ \\+ Cond, !, a disjunction, an if-then-else, or again D, K; Cond has a cut of its own '
+        '(c, !, f / (c, !, f ; d) / !, f / (f ; !, c, f) / (c -> ! ; d), f / c, (! ; d), f / (c, !), f) or has the form Gen, Nested (a goal with several '
+        'answers followed by a \\+ / if-then-else that tests the answer); such a clause is always followed by another clause of the predicate); and '
+        'ALL bodies D, K with D in {(L ; L), (L -> L ; L), (L -> L)} over leaves with 0 / 2 (thorough: 0 / 1 / 2) solutions and K in {\\+ C, (C -> t ; e), '
+        '(C -> t)} with C in {(c, !, f), (c, !, f ; true), (c ; !, f)}, c in {true, q2} (thorough: + q1), f in {fail, true} (thorough: + q0) '
+        '(origin "exhaustive-contdup": 576 / 3645 bodies). 15% of the random programs get adversarial identifiers (see C01).')
 TRUSTED_BASE = []
 
 def gen(rng, tier):
     n = 240 if tier == 'quick' else 5000
     cases = []
     for _ in range(n):
-        o = progs.Opts(open_leaves=0.5 if rng.random() < 0.2 else 0.0, control=True, cut=rng.random() < 0.5, opaque_cut=rng.random() < 0.6, builtins=False, deep=rng.random() < 0.3)
+        o = progs.Opts(open_leaves=0.5 if rng.random() < 0.2 else 0.0, control=True, cut=rng.random() < 0.5, opaque_cut=rng.random() < 0.6, builtins=False, deep=rng.random() < 0.3,
+                       contdup=rng.choice([0.0, 0.0, 0.3, 0.6]))
         p = progs.gen_program(rng, o)
+        if rng.random() < 0.15:
+            p = progs.adversarial_program(rng, p)
         cases.append({'clauses': p['clauses'], 'queries': p['queries']})
     # exhaustive small scope (support for the model-code tie, not the proof): ALL bodies with <= 2 (quick) / <= 3 (thorough)
     # leaves over {q0,q1,q2 (0/1/2 solutions), true, fail, !, =} x {',', ';', '->', '-> ;', \\+}, followed by a continuation goal
     cases.extend(progs.exhaustive_cases(2 if tier == 'quick' else 3))
+    # exhaustive small scope of the shape "continuation duplication":  (A ; B), K  /  (C -> T ; E), K  /  (C -> T), K  where K is a
+    # negation / if-then-else / if-then whose condition has a cut of its own (origin "exhaustive-contdup")
+    cases.extend(progs.exhaustive_contdup_cases(tier != 'quick'))
     return cases
 
 def builtin_corpus():
@@ -55,6 +70,13 @@ def builtin_corpus():
     prog([['z', [V('X'), V('Y')], ['or', ['if', ['or', ['if', ['and', call('m', V('X')), ['cut']], call('n', V('X'))], ['true']], call('=', V('Y'), A('t'))], call('=', V('Y'), A('e'))]]] + m3, [['z', [V('Q0'), V('Q1')]]])
     # a cut in the then/else branch is still a cut of the clause
     prog([['k', [V('X')], ['and', call('m', V('X')), ['or', ['if', call('n', V('X')), ['cut']], ['true']]]], ['k', [A('last')], ['true']]] + m3, [['k', [V('Q0')]]])
+    # the goal after a disjunction / if-then-else is compiled once per alternative; here it has a condition with a cut of its own
+    prog([['p', [V('X'), V('R')], ['and', ['or', call('m', V('X')), call('=', V('X'), A('z'))], ['or', ['if', ['and', call('n', V('X')), ['and', ['cut'], ['fail']]], call('=', V('R'), A('t'))], call('=', V('R'), A('e'))]]],
+          ['p', [A('last'), A('last')], ['true']]] + m3, [['p', [V('Q0'), V('Q1')]]])
+    prog([['u', [V('X')], ['and', ['or', ['if', call('n', V('X')), ['true']], call('=', V('X'), A('z'))], ['and', ['not', ['and', ['cut'], ['fail']]], ['not', ['and', call('m', V('Y')), ['and', ['cut'], call('n', A('a'))]]]]]],
+          ['u', [A('last')], ['true']],
+          ['w', [V('X'), V('R')], ['and', ['and', ['or', ['if', ['fail'], call('=', V('X'), A('t1'))], ['or', ['if', call('n', V('X')), ['true']], call('=', V('X'), A('e'))]], ['if', ['or', ['and', call('m', V('Y')), ['and', ['cut'], call('n', V('Y'))]], ['true']], call('=', V('R'), V('Y'))]], call('m', V('R'))]],
+          ['w', [A('last'), A('last')], ['true']]] + m3, [['u', [V('Q0')]], ['w', [V('Q0'), V('Q1')]]])
     return L
 
 def compare(case, io, mo):
@@ -68,5 +90,8 @@ def nontrivial(case, io):
 def distribution(cases, obs):
     d = semcheck.stats(cases, obs)
     d['exhaustive_small_scope_bodies'] = sum(1 for c in cases if c.get('origin') == 'exhaustive')
+    d['exhaustive_continuation_duplication_bodies'] = sum(1 for c in cases if c.get('origin') == 'exhaustive-contdup')
+    d['programs_with_construct_after_disjunction_or_ite'] = sum(1 for c in cases if any(progs.has_dup_continuation(b) for _, _, b in c['clauses']))
+    d['programs_with_local_cut_construct_in_duplicated_continuation'] = sum(1 for c in cases if any(progs.has_dup_continuation(b, True) for _, _, b in c['clauses']))
     d['programs_with_opaque_cut'] = sum(1 for c in cases if any(progs.has_opaque_cut(b) for _, _, b in c['clauses']))
     return d
